@@ -3,7 +3,7 @@
     replacement by their contracts), with a POSIX single-quote lexer as the reference consumer of @sh. *)
 From Coq Require Import List ZArith.
 From Coq Require Import Init.Byte.
-From JaqV Require Import Base.Bytes Std.Codec Proofs.CodecLaws.
+From JaqV Require Import Base.Bytes Std.Codec Proofs.CodecLaws Val.Val Fmts.Tabular Proofs.TabularLaws.
 Import ListNotations.
 
 (** @uri | @urid : every byte string (any bytes, also invalid UTF-8) is returned unchanged *)
@@ -34,3 +34,14 @@ Print Assumptions uri_byte.
 Theorem html_byte : forall c n rest, html_unescape (S n) (html_esc1 c ++ rest) = c :: html_unescape n rest.
 Proof. exact html_step. Qed.
 Print Assumptions html_byte.
+
+(** @csv / @tsv (Fmts/Tabular.v mirrors write/tabular.rs and the reader's state machine): a row of scalars, whatever bytes its
+    strings contain, is read back field by field; a written TSV field contains no raw separator, line break or NUL *)
+Theorem csv_row_reads_back : forall vs t,
+  TabularLaws.row_ok vs -> vs <> [Val.Null] -> Tabular.write_csv (Val.Arr vs) = Some t -> Tabular.read_csv t = [Val.Arr vs].
+Proof. exact TabularLaws.csv_row_roundtrip. Qed.
+Print Assumptions csv_row_reads_back.
+
+Theorem tsv_field_is_clean : forall s c, In c (Tabular.tsv_str s) -> (bz c <> 9 /\ bz c <> 10 /\ bz c <> 13 /\ bz c <> 0)%Z.
+Proof. exact TabularLaws.tsv_str_no_sep. Qed.
+Print Assumptions tsv_field_is_clean.
